@@ -224,9 +224,11 @@ def HmmOK (lt : LexTree) (g : Fsg) (s : SState) (p : Nat) : Prop :=
 /-- the part of the invariant that concerns the HMMs and the active list:
 * live states hold good history indices (`HmmOK`),
 * an HMM that is not on the active list is in the cleared state (DESIGN §4/C08 `finish_clears_search`),
-* an HMM on the active list has `hmm_frame == fsgs->frame` (the `assert` of `fsg_search_hmm_eval`). -/
+* an HMM on the active list has `hmm_frame == fsgs->frame` (the `assert` of `fsg_search_hmm_eval`),
+* no pnode is twice on the active list (so the list is never longer than the lextree has pnodes: the
+  `E_FATAL("PANIC! … #HMM evaluated > #PNodes")` of `fsg_search_hmm_eval` is unreachable). -/
 def HmmsInv (lt : LexTree) (g : Fsg) (s : SState) : Prop :=
-  s.hmms.size = lt.nodes.size ∧
+  (s.hmms.size = lt.nodes.size ∧ s.active.Nodup) ∧
   (∀ p ∈ s.active, p < lt.nodes.size ∧ (s.hmm p).frame = s.frame) ∧
   (∀ p, p < lt.nodes.size → HmmOK lt g s p ∧ (p ∉ s.active → s.hmm p = Hmm.clear lt.nst))
 
@@ -328,9 +330,11 @@ def PNodeStep (lt : LexTree) (g : Fsg) (s s' : SState) (p : Nat) : Prop :=
 instance (lt : LexTree) (g : Fsg) (s s' : SState) (p : Nat) : Decidable (PNodeStep lt g s s' p) := by
   unfold PNodeStep; infer_instance
 
-/-- the HMM side of `fsg_search_step` -/
+/-- the HMM side of `fsg_search_step`; a pnode is put on `pnode_active_next` exactly when its frame stamp
+changes to `frame + 1` (`hmm_frame(hmm) == fsgs->frame` in `fsg_search_hmm_prune_prop`, `hmm_frame < nf` in
+`fsg_search_pnode_trans` / `fsg_search_word_trans`), so the new list has no duplicates -/
 def HmmsStep (lt : LexTree) (g : Fsg) (s s' : SState) : Prop :=
-  s'.hmms.size = s.hmms.size ∧ (∀ p ∈ s'.active, p < lt.nodes.size) ∧
+  (s'.hmms.size = s.hmms.size ∧ s'.active.Nodup) ∧ (∀ p ∈ s'.active, p < lt.nodes.size) ∧
   (∀ p, p < lt.nodes.size → PNodeStep lt g s s' p)
 
 instance (lt : LexTree) (g : Fsg) (s s' : SState) : Decidable (HmmsStep lt g s s') := by
@@ -369,7 +373,7 @@ instance (lt : LexTree) (g : Fsg) (s0 s : SState) (p : Nat) : Decidable (PNodeSt
   unfold PNodeStart; infer_instance
 
 def StartHmms (lt : LexTree) (g : Fsg) (s0 s : SState) : Prop :=
-  s.hmms.size = s0.hmms.size ∧ (∀ p ∈ s.active, p < lt.nodes.size) ∧
+  (s.hmms.size = s0.hmms.size ∧ s.active.Nodup) ∧ (∀ p ∈ s.active, p < lt.nodes.size) ∧
   (∀ p, p < lt.nodes.size → PNodeStart lt g s0 s p)
 
 instance (lt : LexTree) (g : Fsg) (s0 s : SState) : Decidable (StartHmms lt g s0 s) := by
